@@ -354,6 +354,17 @@ package htlcswitch
 //@   site store htlcPacket.inboundFee nth 0: assert value.Base == l.cfg.FwrdingPolicy.InboundFee.Base && value.Rate == l.cfg.FwrdingPolicy.InboundFee.Rate
 //@   site store htlcPacket.inboundFee nth 1: assert value.Base == l.cfg.FwrdingPolicy.InboundFee.Base && value.Rate == l.cfg.FwrdingPolicy.InboundFee.Rate
 //@   loop * havoc
+//@   // what the switch checks (packet.amount, the timeouts) is what the outgoing link will send (the message inside the packet),
+//@   // and every packet refers to the Add it was made from through a reference of its own
+//@   site store htlcPacket.amount nth 0: assert value == outgoingAdd.Amount
+//@   site store htlcPacket.htlc nth 0: assert dyndata(value) == outgoingAdd && typeis(value, *lnwire.UpdateAddHTLC)
+//@   site store htlcPacket.amount nth 1: assert value == addMsg.Amount
+//@   site store htlcPacket.htlc nth 1: assert dyndata(value) == addMsg && typeis(value, *lnwire.UpdateAddHTLC)
+//@   site store htlcPacket.incomingAmount: assert value == add.Amount
+//@   site store htlcPacket.incomingTimeout: assert value == add.Expiry
+//@   site store htlcPacket.outgoingTimeout: assert value == fwdInfo.OutgoingCLTV
+//@   site store htlcPacket.incomingHTLCID: assert value == add.ID
+//@   site store htlcPacket.sourceRef: assert iterfresh(value)
 //@   let K = any(k)
 //@   loop 0 invariant len(unackedIdxs) == len(unackedAdds) && len(unackedAdds) == len(decodeReqs) &&
 //@        (0 <= K && K < len(unackedAdds) ==> 0 <= unackedIdxs[K] && unackedIdxs[K] < len(fwdPkg.Adds) &&
@@ -377,3 +388,13 @@ package htlcswitch
 //@           l.cfg.FwrdingPolicy.BaseFee == entry(newPolicy).BaseFee && l.cfg.FwrdingPolicy.FeeRate == entry(newPolicy).FeeRate &&
 //@           l.cfg.FwrdingPolicy.TimeLockDelta == entry(newPolicy).TimeLockDelta &&
 //@           l.cfg.FwrdingPolicy.MinHTLCOut == entry(newPolicy).MinHTLCOut && l.cfg.FwrdingPolicy.MaxHTLC == entry(newPolicy).MaxHTLC
+//@
+//@ // ---- an interceptor may change the amounts of a held forward: the amount the switch checks and the amount on the wire change together
+//@ func (f *interceptedForward) ResumeModified$2
+//@   props C09
+//@   site store htlcPacket.incomingAmount: assert value == amount
+//@
+//@ func (f *interceptedForward) ResumeModified$3
+//@   props C09
+//@   site store htlcPacket.amount: assert value == amount
+//@   site store UpdateAddHTLC.Amount: assert value == amount
